@@ -367,6 +367,9 @@ pub struct ScriptCfg {
     /// abort a directly held command before its first poll (no core can do that)
     #[serde(default)]
     pub abort_before_poll: bool,
+    /// C13: drop one-shot requests of the old capability API too (S10 territory)
+    #[serde(default)]
+    pub legacy_drops: bool,
 }
 
 #[derive(Clone, Debug, Serialize, Deserialize)]
@@ -386,6 +389,8 @@ pub struct Scenario {
     /// send duplicate responses for consumed one-shots over the bridge
     #[serde(default)]
     pub bridge_dups: bool,
+    #[serde(default)]
+    pub legacy_drops: bool,
 }
 
 pub struct ScriptOut {
@@ -399,6 +404,7 @@ pub fn gen_script(rng: &mut Rng, programs: Vec<Cmd>, host: HostSel, sc: &ScriptC
     let kind = if host.is_direct() { HostKind::Direct } else { HostKind::Core };
     let mut m = Model::new(kind);
     m.g.legacy_supported = host.supports_legacy();
+    m.g.legacy_drops = sc.legacy_drops;
     let can_drop = sc.drops && !host.is_bridge();
     let races = programs.iter().any(Cmd::has_races);
     let max_batch = if races || !host.is_direct() || sc.force_batch1 { 1 } else { sc.max_batch.max(1) };
